@@ -19,6 +19,7 @@ mod plain;
 mod queue;
 mod rng;
 mod sources;
+mod stdctor;
 mod steps;
 mod twin;
 mod types;
